@@ -30,8 +30,8 @@ Definition derive (h : hier) (t p : tag) : option hier :=
     let cd := image (hd h) t in          (* cur-descendants *)
     if tmem t pa then None               (* cyclic derivation *)
     else Some {| hp := radd t p (hp h);
-                 ha := ha h ++ product (t :: cd) (p :: pa);
-                 hd := hd h ++ product (p :: pa) (t :: cd) |}.
+                 ha := runion (ha h) (product (t :: cd) (p :: pa));
+                 hd := runion (hd h) (product (p :: pa) (t :: cd)) |}.
 
 (** (underive h tag parent): drop the pair from :parents and re-derive everything that is
     left into a fresh hierarchy (the iteration order of the map is immaterial: see
